@@ -53,8 +53,12 @@ func hBadLiteral() string {
 	if nondetIntRange(0, 1) == 0 {
 		return string([]byte{a})
 	}
+	// second byte: any printable ASCII character that is not structural ('%' and the like included: the
+	// literal is quoted in the message)
 	b := nondetByte()
-	verifAssume(verifAnd(b >= 'g', b <= 'z'))
+	verifAssume(verifAnd(b > ' ', b < 0x7f))
+	verifAssume(verifAnd(verifAnd(b != ',', b != ']'), verifAnd(b != '}', b != '[')))
+	verifAssume(verifAnd(verifAnd(b != '{', b != '"'), verifAnd(b != ':', b != '\\')))
 	return string([]byte{a, b})
 }
 
@@ -214,6 +218,13 @@ func H_C20_newlines_in_strings() {
 		d.add(`"`)
 		st := len(d.s)
 		d.add(hStrBody())
+		// optionally, later in the same literal: an escape sequence, or a raw line break
+		switch nondetIntRange(0, 2) {
+		case 1:
+			d.add("\\n")
+		case 2:
+			d.add("\n")
+		}
 		bodies = append(bodies, [2]int{st, len(d.s)})
 		d.add(`"`)
 	}
